@@ -99,7 +99,10 @@ class BackwardRun:
 
     def __init__(self, scn: dict, rng: random.Random, dtype=torch.float64, aggregator=None,
                  retain: bool | None = None, how_inputs: str | None = None, default_inputs: bool = False,
-                 chunk="scn", hook_scale=None):
+                 chunk="scn", hook_scale=None, reps: int | None = None):
+        """``reps``: number of consecutive identical calls on the same graph (all but the last with
+        retain_graph=True): by Deposits each adds the same update (default: seeded, 1 or 2, and 1 whenever an
+        aggregator is given - it may be randomised)."""
         from torchjd import backward
         from torchjd.aggregation import Constant
 
@@ -110,7 +113,7 @@ class BackwardRun:
         self.inputs = [int(x) for x in scn["inputs"]]
         self.tensors = [int(x) for x in scn["tensors"]]
         for l, flat in fmap(scn.get("pregrad")).items():
-            B.set_grad(int(l), flat)
+            B.set_grad(int(l), flat, layout=rng.choice([None, 0, 1]))
         self.pre_ptr = {l: (None if B.node(l).grad is None else B.node(l).grad.untyped_storage().data_ptr())
                         for l in self.leaves}
         self.pre_obj = {l: B.node(l).grad for l in self.leaves}
@@ -130,27 +133,41 @@ class BackwardRun:
         # tensor may equally be passed as the list of its scalars (many small tensors: this is also what
         # makes Python's set iteration order differ from the list order, which needs >= 5 elements)
         self.exploded = sum(t.numel() for t in tens) >= 4 and rng.random() < 0.5
-        if self.exploded:
-            tens = [t.reshape(-1)[i] for t in tens for i in range(t.numel())]
+        if self.exploded:                               # (a leaf stays itself: its scalars would be non-leaf views)
+            tens = [x for t in tens for x in ([t] if t.is_leaf else [t.reshape(-1)[i] for i in range(t.numel())])]
         tens_arg = tens[0] if (len(tens) == 1 and rng.random() < 0.3) else tens
+        if reps is None:
+            reps = 2 if (aggregator is None and rng.random() < 0.3) else 1
+        self.reps = reps
+        self.positional = rng.random() < 0.25
         self.exc = None
         try:
-            backward(tens_arg, self.agg,
-                     inputs=None if default_inputs else present([B.node(l) for l in order], self.how),
-                     retain_graph=self.retain, parallel_chunk_size=None if k == 0 else k)
+            for r in range(reps):
+                ins = None if default_inputs else present([B.node(l) for l in order], self.how)
+                rt = True if r < reps - 1 else self.retain
+                if self.positional:      # the documented order: backward(tensors, aggregator, inputs, retain_graph, parallel_chunk_size)
+                    backward(tens_arg, self.agg, ins, rt, None if k == 0 else k)
+                else:
+                    backward(tens_arg, self.agg, inputs=ins, retain_graph=rt, parallel_chunk_size=None if k == 0 else k)
         except Exception as e:                          # noqa: BLE001
             self.exc = e
         self.after_vals = B.flat_vals()
         self.after_grads = {l: B.grad_flat(l) for l in self.leaves}
         self.meta = {"shapes": [list(s) for s in B.shapes], "inputs_as": self.how, "order": order,
                      "retain": self.retain, "dtype": str(dtype).replace("torch.", ""), "k": k,
-                     "tensors_exploded": self.exploded}
+                     "tensors_exploded": self.exploded, "layouts": B.layouts, "calls_on_the_same_graph": reps,
+                     "arguments": "positional" if self.positional else "keyword"}
 
     # -------------------------------------------------------------- property-layer comparisons
     def check_deposits(self) -> list[str]:
         """C01: final .grad of every leaf == the value computed by the specification (exact)."""
         out = []
         exp = fmap(self.scn["expected"])
+        if self.reps > 1:                               # r identical calls: grad0 + r * (expected - grad0)
+            exp = dict(exp)
+            for l in self.inputs:
+                b = self.before_grads[l] or [0.0] * len(exp[l])
+                exp[l] = [b_ + self.reps * (e_ - b_) for e_, b_ in zip(exp[l], b)]
         for l in self.leaves:
             e = exp[l]
             g = self.after_grads[l]
@@ -170,16 +187,18 @@ class BackwardRun:
 
     def check_matrix(self) -> tuple[list[str], list]:
         """C01 (i): the matrix handed to the aggregator is TrueJac up to the order of the inputs."""
-        if len(self.agg.calls) != 1:
-            return [f"aggregator called {len(self.agg.calls)} times"], []
-        if "final" not in self.agg.calls[0]:
-            return ["the aggregator was not invoked through aggregator(J) (Module.__call__): its forward hooks did not run"], []
-        m = self.agg.calls[0]["matrix"]
-        rows = len(self.scn["w"])
-        orders = match_layout(m, leaf_blocks(self.scn), rows)
-        if not orders:
-            return [f"matrix handed to the aggregator {m.tolist()} is not the true Jacobian "
-                    f"{self.scn['jac']} under any ordering of the inputs"], []
+        if len(self.agg.calls) != self.reps:
+            return [f"aggregator called {len(self.agg.calls)} times by {self.reps} call(s)"], []
+        orders = []
+        for c in self.agg.calls:
+            if "final" not in c:
+                return ["the aggregator was not invoked through aggregator(J) (Module.__call__): its forward hooks did not run"], []
+            m = c["matrix"]
+            rows = len(self.scn["w"])
+            orders = match_layout(m, leaf_blocks(self.scn), rows)
+            if not orders:
+                return [f"matrix handed to the aggregator {m.tolist()} is not the true Jacobian "
+                        f"{self.scn['jac']} under any ordering of the inputs"], []
         return [], orders
 
     def check_slices(self, orders) -> list[str]:
@@ -238,7 +257,7 @@ class BackwardRun:
 def twin_autograd(scn: dict, run: BackwardRun) -> list[str]:
     """C05: torch.autograd.backward(tensors, grad_tensors = w split per tensor, inputs) on an
     identically built second graph leaves the same .grad (None == zeros for unreachable inputs)."""
-    B = Built(scn["prog"], dtype=run.dtype, shapes=run.built.shapes, real=run.built.real)
+    B = Built(scn["prog"], dtype=run.dtype, shapes=run.built.shapes, real=run.built.real, layouts=run.built.layouts)
     for l, flat in fmap(scn.get("pregrad")).items():
         B.set_grad(int(l), flat)
     w = [float(v) for v in scn["w"]]
@@ -247,8 +266,16 @@ def twin_autograd(scn: dict, run: BackwardRun) -> list[str]:
         n = B.node(t).numel()
         gts.append(torch.tensor(w[off:off + n], dtype=run.dtype).reshape(B.node(t).shape))
         off += n
-    torch.autograd.backward([B.node(t) for t in run.tensors], grad_tensors=gts,
-                            inputs=[B.node(l) for l in run.inputs])
+    if run.reps == 1:
+        torch.autograd.backward([B.node(t) for t in run.tensors], grad_tensors=gts,
+                                inputs=[B.node(l) for l in run.inputs])
+    for _ in range(run.reps if run.reps > 1 else 0):    # as many passes over the twin graph as calls were made
+        got = torch.autograd.grad([B.node(t) for t in run.tensors], [B.node(l) for l in run.inputs], grad_outputs=gts,
+                                  retain_graph=True, allow_unused=True)
+        for l, g in zip(run.inputs, got):               # (autograd.grad + explicit accumulation: .backward() may let the
+            if g is not None:                           #  .grad of two leaves alias one gradient tensor)
+                x = B.node(l)
+                x.grad = g.detach().clone() if x.grad is None else x.grad + g.detach()
     out = []
     for l in run.leaves:
         a, b = run.after_grads[l], B.grad_flat(l)
@@ -267,7 +294,7 @@ def precision_run_backward(scn: dict, rng: random.Random) -> list[str]:
     from torchjd.aggregation import Constant
     eps = 2.0 ** -29
     B = Built(scn["prog"], dtype=torch.float64, rng=rng, perturb=eps)
-    T = Built(scn["prog"], dtype=torch.float64, shapes=B.shapes, real=B.real, perturb=eps)
+    T = Built(scn["prog"], dtype=torch.float64, shapes=B.shapes, real=B.real, perturb=eps, layouts=B.layouts)
     tensors = [int(t) for t in scn["tensors"]]
     inputs = [int(l) for l in scn["inputs"]]
     w = torch.tensor([float(v) + 2.0 ** -28 * (1 + i % 2) for i, v in enumerate(scn["w"])], dtype=torch.float64)
